@@ -211,7 +211,8 @@ def main(argv):
     ap.add_argument("--replay")
     a = ap.parse_args(argv)
     sys.path.insert(0, VERIF)
-    code, ctx, _ = run_property(a.pid, a.tier, a.replay)
+    # runs against a scratch tree (VERIF_TAG set by tools/try_seed.sh) must not overwrite the evidence of /repo
+    code, ctx, _ = run_property(a.pid, a.tier, a.replay, write_evidence=not os.environ.get("VERIF_TAG"))
     if a.tier == "thorough":
         try:
             from . import thorough
